@@ -108,3 +108,14 @@ def check(ctx):
                      "Entry::remove (consumer-only) is called only from the thread that consumes the list: the timer thread, the owning selector loop, remove_timer (reached only on the owner thread)", min_callers=1)
     if ctx.prog.fn("may::io::sys::remove_timer") is not None:
         ctx.who_may_call(r"may::io::sys::remove_timer", {sel, "may::io::sys::EventData::del_timer"}, "remove-timer-callers", "remove_timer runs only in the selector loop or in del_timer behind the owner-thread test", min_callers=2)
+    # ---- mpsc_list.rs (the simpler sibling, unused by may): publication order and floors only
+    L0 = "may_queue::mpsc_list"
+    N0 = L0 + "::Node"
+    ctx.order(L0 + "::Queue::push", Call(A("swap"), on=L0 + "::Queue.head", transitive=False), atomic("store", N0 + ".next"), "list0/swap-then-link", "mpsc_list: the node is linked behind the node swapped out of head")
+    ctx.mo_floor(L0 + "::Queue.head", ("swap",), "ACQREL", "list0/head-swap", "sees prev's initialisation, publishes the own node's", only_in=re.escape(L0) + "::Queue::push")
+    ctx.mo_floor(N0 + ".next", ("store",), "REL", "list0/next-store", "publishes the node and its value")
+    ctx.mo_floor(N0 + ".next", ("load",), "ACQ", "list0/next-load", "the consumer dereferences the node")
+    ctx.guarded(L0 + "::Queue::pop", Call(r"(std|core)::option::Option::take", on=N0 + ".value", transitive=False), call_false(r"(std|core)::ptr::(mut_ptr::|const_ptr::)?is_null"),
+                "list0/deref-next-non-null", "mpsc_list pop dereferences `next` only after a non-null load", pred_label="edge `next.is_null()` is false")
+    ctx.guarded("<may_queue::mpsc_list::Queue as std::ops::Drop>::drop", Call(r"(std|alloc)::boxed::Box::from_raw", transitive=False), call_false(r"(std|core)::option::Option::is_some"),
+                "list0/drop-drains", "mpsc_list Drop frees the stub only after pop() returned None", pred_label="edge `pop().is_some()` is false")
